@@ -1,7 +1,7 @@
 (** C18 - Registry calls always terminate when overlapping deliveries terminate. *)
 From Coq Require Import List NArith ZArith Bool.
 From SH Require Import base.Pool gen.Extracted_halflock gen.Extracted_registry halflock.Model halflock.Safety halflock.Skeleton registry.Skeleton
-  registry.Model registry.Inv registry.PcInv registry.Events registry.Deliver registry.Progress.
+  registry.Model registry.Inv registry.PcInv registry.Events registry.Deliver registry.Progress registry.Fair.
 Import ListNotations.
 
 (** Deadlock freedom: in every reachable live world the step of every unfinished activity takes
@@ -57,3 +57,32 @@ Theorem C18_panic_wedges_nobody :
   fstep q_ok s_ok s f = (s', f', es) ->
   s' = s /\ (aborted (dt s) || aborted (fb s) = false -> fpc f' = PDone /\ vdt f' = vdt f /\ vfb f' = vfb f).
 Proof. exact forbidden_register_touches_nothing. Qed.
+
+Local Open Scope nat_scope.
+(** Fair termination.  From every reachable live world - any number of deliveries and of
+    register / unregister / unregister_signal calls in flight at any points of their code, no
+    further activity arriving - and under every schedule made of rounds that each step every
+    activity at least once (in any order, with repetitions: any cut of a fair infinite schedule),
+    every activity has returned after [D' w + 75 * n] rounds, where [D' w] is the sum of the
+    remaining-step measures of the deliveries in [w] and [n] the number of activities. *)
+Theorem C18_fair_termination :
+  forall (q_ok s_ok : Z -> bool) os0 ls w es,
+  run q_ok s_ok (sh_init os0, []) ls = (w, es) -> live (fst w) -> (N.of_nat (length (snd w)) <= MAX_GUARDS)%N ->
+  forall rounds, (forall r, In r rounds -> covers (length (snd w)) r) ->
+  (D' w + 75 * length (snd w) <= length rounds)%nat ->
+  all_done (snd (steps q_ok s_ok w (concat rounds))).
+Proof. exact fair_termination_reachable. Qed.
+
+(** The two phases separately: each covering round lowers the deliveries' measure while a
+    delivery is unfinished, and - once they are finished - the calls' measure while a call is. *)
+Theorem C18_round_deliveries :
+  forall (q_ok s_ok : Z -> bool) r w, FInv w ->
+  (D' (steps q_ok s_ok w r) <= D' w)%nat /\
+  forall k g, In k r -> nth_error (snd w) k = Some g -> del_pending g = true -> (D' (steps q_ok s_ok w r) < D' w)%nat.
+Proof. exact D_round. Qed.
+
+Theorem C18_round_calls :
+  forall (q_ok s_ok : Z -> bool) r w, P2 w ->
+  P2 (steps q_ok s_ok w r) /\ (MM' (steps q_ok s_ok w r) <= MM' w)%nat /\
+  forall k g, In k r -> nth_error (snd w) k = Some g -> enabled (fst w) g -> (MM' (steps q_ok s_ok w r) < MM' w)%nat.
+Proof. exact MM_round. Qed.
